@@ -465,25 +465,51 @@ def check_elimination(facts, rep):
                             found.add(sh)
         shapes[label] = found
     # a^-1 really inverts both factors of a = coefficient * cobordism
-    invs = facts.find(r'^yui_kh::<yui::lc::Lc<kh::internal::v2::cob::Cob, R> as kh::internal::v2::cob::LcCobTrait>::inv::\{closure#0\}$')
+    invb = facts.find(r'^yui_kh::<yui::lc::Lc<kh::internal::v2::cob::Cob, R> as kh::internal::v2::cob::LcCobTrait>::inv$')
     inst = 'LcCob::inv|(r * f)^-1 = r^-1 * f^-1'
-    okinv = False
+    verdict = None
     shape = None
-    for b in invs:
-        rep.saw(b)
-        for p in SymEx(b).run():
-            r = p.ret
-            if p.end == 'return' and r is not None and r[0] == 'tuple' and len(r[1]) == 2:
-                c0, c1 = r[1]
-                shape = (sk(c0), sk(c1))
-                okinv = (c0[0] == 'call' and c0[1].endswith('cob::Cob::inv') and sk(c0[2][0]).endswith('.0') and
-                         c1[0] == 'call' and c1[1].endswith('Ring::inv') and sk(c1[2][0]).endswith('.1'))
-    if okinv:
+    if len(invb) == 1:
+        ib = invb[0]
+        rep.saw(ib)
+        bodies_ = [ib] + [b for k, b in facts.bodies.items() if k.startswith(ib.defp + '::{closure')]
+        cob_inv = ring_inv = False
+        for b in bodies_:
+            for p in SymEx(b, max_paths=2000).run():
+                for e in p.calls():
+                    last = e.name.split('::')[-1]
+                    if last == 'inv' and e.args:
+                        a0 = re.sub(r'#\d+\.\d+', '', show(e.args[0], -1000))
+                        if e.name.endswith('cob::Cob::inv') and re.search(r'\.0\)*$', a0):
+                            cob_inv = True
+                        elif 'Ring::inv' in e.name and re.search(r'\.1\)*$', a0):
+                            ring_inv = True
+        somes = []
+        for p in SymEx(ib, max_paths=2000).run():
+            if p.end == 'return' and p.ret and p.ret[0] == 'adt' and p.ret[2] == 'Some':
+                v = strip(p.ret[4][0])
+                pair = None
+                if v[0] == 'call' and v[1].split('::')[-1] == 'from' and len(v[2]) == 1 and strip(v[2][0])[0] == 'tuple' and len(strip(v[2][0])[1]) == 2:
+                    pair = tuple(re.sub(r'#\d+\.\d+', '', show(x, -1000)) for x in strip(v[2][0])[1])
+                somes.append(pair)
+        shape = (sorted(set(x for x in somes if x))[:1], cob_inv, ring_inv)
+        built = bool(somes) and all(x is not None for x in somes)
+        if cob_inv and ring_inv and built:
+            ok_parts = all(re.search(r'(^inv\(.*\.0\)|\.Some\.0\.0)(\.Some\.0)?$', l) and re.search(r'(^inv\(.*\.1\)|\.Some\.0\.1)(\.Some\.0)?$', r_) for l, r_ in somes)
+            verdict = 'ok' if ok_parts else 'unknown'
+        elif built and not (cob_inv and ring_inv):
+            verdict = 'bad'
+        else:
+            verdict = 'unknown'
+    if verdict == 'ok':
         rep.ok('E8.F6-elimination-formula', inst, 'term (c, a) -> (c.inv(), a.inv())')
-    else:
+    elif verdict == 'bad':
         rep.violation('E8.F6-elimination-formula', inst,
-                      'LcCob::inv maps a term (cobordism, coefficient) to %s; the inverse used as a^-1 in d - c a^-1 b must invert the cobordism AND the coefficient (Ring::inv)' % (shape,),
+                      'LcCob::inv builds %s without inverting %s; the inverse used as a^-1 in d - c a^-1 b must invert the cobordism AND the coefficient (Ring::inv)' %
+                      (shape[0], 'the cobordism' if not shape[1] else 'the coefficient'),
                       where='yui-khovanov/src/kh/internal/v2/cob.rs')
+    else:
+        rep.indet('E8.F6: LcCob::inv outside the recognised fragment: %s' % (shape,))
     inst = 'eliminate|d - c*a^-1*b (complex) and -c*a^-1*b / d - c*a^-1*b (cycles)'
     want = {('sub', 'c', 'ainv', 'b'), ('neg', 'c', 'ainv', 'b')}
     if shapes.get('complex') == want and shapes.get('cycles') == want:
@@ -552,9 +578,26 @@ def pure_inverse(v):
             v = v[1]
         elif v[0] == 'call' and v[1].split('::')[-1] in ('unwrap', 'clone', 'expect', 'unwrap_unchecked') and v[2]:
             v = v[2][0]
+        elif v[0] == 'call' and v[1].split('::')[-1] == 'unwrap_or_else' and len(v[2]) == 2 and _diverges(v[2][1]):
+            v = v[2][0]          # x.unwrap_or_else(|| panic!(..)) is x.unwrap()
         else:
             break
     return v[0] == 'call' and v[1].split('::')[-1] == 'inv' and len(v[2]) == 1
+
+
+def _diverges(clo):
+    """the closure never returns (its body ends in a panic on every path)"""
+    import symex as _sx
+    clo = strip(clo)
+    if clo[0] != 'closure':
+        return False
+    cb = _sx.BODIES.get(clo[1])
+    if cb is None:
+        return False
+    try:
+        return not any(p.end == 'return' for p in SymEx(cb, max_paths=200).run())
+    except TooManyPaths:
+        return False
 
 
 def _subcalls(t):
